@@ -238,4 +238,59 @@ class PrangeRaces(Contract):
     def static_obligations(self, tier):
         from contracts.prange import race_obligations
 
-        return race_obligations(tier)
+        return race_obligations(tier) + builtin_matrices_are_fresh()
+
+
+def builtin_matrices_are_fresh():
+    """Megacomplex output is scaled in place by the matrix provider (`this_matrix *= scale`): every builtin
+    megacomplex must hand out a fresh array per call and must not alias item state (concrete, structural)."""
+    import numpy as np
+
+    from glotaran.builtin.megacomplexes.baseline import BaselineMegacomplex
+    from glotaran.builtin.megacomplexes.clp_guide import ClpGuideMegacomplex
+    from glotaran.builtin.megacomplexes.coherent_artifact import CoherentArtifactMegacomplex
+    from glotaran.builtin.megacomplexes.damped_oscillation import DampedOscillationMegacomplex
+    from glotaran.builtin.megacomplexes.decay import DecayParallelMegacomplex, DecaySequentialMegacomplex
+    from glotaran.builtin.megacomplexes.decay.irf import IrfMultiGaussian
+    from glotaran.builtin.megacomplexes.pfid import PFIDMegacomplex
+    from glotaran.builtin.megacomplexes.spectral import SpectralMegacomplex
+    from glotaran.builtin.megacomplexes.spectral.shape import SpectralShapeGaussian
+    from glotaran.parameter import Parameter
+
+    def P(v):
+        return Parameter(label="p", value=v)
+
+    class DM:
+        label = "ds"
+        spectral_axis_inverted = False
+        spectral_axis_scale = 1
+
+    t = np.linspace(-1, 5, 13)
+    g = np.array([1500.0, 1600.0])
+    res = []
+    for irf_kind in ("none", "plain", "shift"):
+        dm = DM()
+        dm.irf = None if irf_kind == "none" else IrfMultiGaussian(label="i", center=[P(0.3)], width=[P(0.2)], **({"shift": [P(0.0), P(0.1)]} if irf_kind == "shift" else {}))
+        mcs = {
+            "decay-parallel": DecayParallelMegacomplex(label="m", compartments=["a", "b"], rates=[P(0.5), P(1.5)]),
+            "decay-sequential": DecaySequentialMegacomplex(label="m", compartments=["a", "b"], rates=[P(0.5), P(1.5)]),
+            "damped-oscillation": DampedOscillationMegacomplex(label="m", labels=["o"], frequencies=[P(20.0)], rates=[P(0.4)]),
+            "baseline": BaselineMegacomplex(label="m"),
+            "clp-guide": ClpGuideMegacomplex(label="m", target="a"),
+            "spectral": SpectralMegacomplex(label="m", shape={"a": SpectralShapeGaussian(label="s", location=P(1.0), width=P(2.0), amplitude=P(1.5))}),
+        }
+        if irf_kind != "none":
+            mcs["coherent-artifact"] = CoherentArtifactMegacomplex(label="m", order=3)
+            mcs["pfid"] = PFIDMegacomplex(label="m", labels=["o"], frequencies=[P(1550.0)], rates=[P(-0.4)])
+        for name, mc in mcs.items():
+            try:
+                l1, m1 = mc.calculate_matrix(dm, g, t)
+                keep = np.array(m1, copy=True)
+                m1 *= 3.0  # what the matrix provider does with megacomplex scales
+                l2, m2 = mc.calculate_matrix(dm, g, t)
+                ok = l1 == l2 and m1 is not m2 and np.array_equal(np.asarray(m2), keep)
+                detail = "second call differs after the first result was scaled in place" if not ok else ""
+            except Exception as e:
+                ok, detail = False, f"{type(e).__name__}: {e}"
+            res.append({"name": f"matrix_is_fresh_per_call_and_deterministic[{name},irf={irf_kind}]", "ok": ok, "detail": detail, "function": f"{type(mc).__module__}:{type(mc).__name__}.calculate_matrix", "strength": "S", "witness": None if ok else detail})
+    return res
